@@ -38,7 +38,7 @@ def gen(rng, n, tier):
             derive = (c['name'] != 'AIRQUALITY') and rng.random() < 0.4
             out.append(dict(kind='uamiv-' + c['name'] + ('-noetflag' if derive else ''), content=c, derive=derive))
         else:
-            c = M.gen_met(rng, tier=tier)
+            c = MC.gen_any(rng, tier=tier)
             out.append(dict(kind='met-' + c['fmt'], content=c, write=True, reread=True))
     return out
 
